@@ -16,7 +16,7 @@ sys.path.insert(0, os.path.dirname(os.path.abspath(__file__)))
 import common  # noqa: E402
 import ctlcmds  # noqa: E402
 
-CLASSES = ["TaskPool", "SimpleTaskPool", "SubPool"]
+CLASSES = ["TaskPool", "SimpleTaskPool", "SubPool", "SubPool2"]
 WIDTHS_Q = [1, 20, 80, 500, None]       # None: the handshake leaves the width to the server (JSON null)
 WIDTHS_T = [1, 10, 20, 40, 80, 120, 500, None]
 
@@ -85,7 +85,9 @@ PREFIXES = {
                  # ... also when that str() ends in a newline of its own
                  [("apply ctlfuncs.failnl --group-name g1",
                    {"kind": "call", "m": "apply", "args": [{"$path": "ctlfuncs.failnl"}], "kwargs": {"group_name": "g1"}})]],
-    "SubPool": [[]],
+    # (the subclass overrides lock(): a command must run the override, which counts - see lock-count)
+    "SubPool": [[], [("lock", {"kind": "call", "m": "lock"})]],
+    "SubPool2": [[]],
     "SimpleTaskPool": [[], [("start 2", {"kind": "call", "m": "start", "args": [2]})]],
 }
 
